@@ -803,6 +803,36 @@ func gen(o hreg.Opts, w *bufio.Writer) error {
 		emit("slots", sp, s, "target="+strconv.FormatUint(target, 10)+" "+e.tokens())
 		st.Add("op", "slots-from-"+s.Fork)
 	}
+	// spans that cross three or four fork boundaries (consecutive or coinciding fork epochs)
+	nMulti := o.Pick(10, 60)
+	for i := 0; i < nMulti; i++ {
+		sp, spName := specVariant(rng, []int{0, 1, 3}[i%3])
+		spe := uint64(sp.SLOTS_PER_EPOCH)
+		epoch := uint64(1 + rng.Intn(6))
+		forkIdx := rng.Intn(2) // start in phase0 or altair
+		setForks(sp, forkIdx, epoch, 0, rng)
+		eps := []*common.Epoch{&sp.ALTAIR_FORK_EPOCH, &sp.BELLATRIX_FORK_EPOCH, &sp.CAPELLA_FORK_EPOCH, &sp.DENEB_FORK_EPOCH}
+		ne := epoch
+		for k := forkIdx; k < 4; k++ {
+			ne += uint64(rng.Intn(2)) // same epoch as the previous fork, or the next one
+			if k == forkIdx && ne == epoch {
+				ne++
+			}
+			*eps[k] = common.Epoch(ne)
+		}
+		pr := randProfile(rng)
+		slot := epoch*spe + uint64(rng.Intn(int(spe)))
+		s := genState(rng, sp, forkIdx, slot, []int{16, 32}[rng.Intn(2)], pr, st)
+		target := (ne+1)*spe + uint64(rng.Intn(int(spe)))
+		e, _, crossed := extrasForSlots(sp, s, target)
+		st.Add("spec", spName)
+		st.Add("slots-forks-crossed", strconv.Itoa(crossed))
+		if pr.leak {
+			st.Add("history", "leak-while-crossing-"+strconv.Itoa(crossed)+"-forks")
+		}
+		emit("slots", sp, s, "target="+strconv.FormatUint(target, 10)+" "+e.tokens())
+		st.Add("op", "slots-multi-fork-from-"+s.Fork)
+	}
 	// isolated upgrades at the fork slot
 	nUp := o.Pick(16, 80)
 	for i := 0; i < nUp; i++ {
@@ -840,7 +870,10 @@ func gen(o hreg.Opts, w *bufio.Writer) error {
 		pr := randProfile(rng)
 		pr.partDensity = 90
 		s := genState(rng, sp, forkIdx, epoch*spe+spe-1, 16, pr, st)
-		kind, subs := corrupt(rng, sp, s)
+		kind, subs := "", []string(nil)
+		for try := 0; try < 8 && kind == ""; try++ {
+			kind, subs = corrupt(rng, sp, s)
+		}
 		if kind == "" {
 			continue
 		}
